@@ -73,7 +73,7 @@ fn connect(w: &mut World, rng: &mut Rng, pools: &mut Pools) -> Option<usize> {
     };
     match w.connect(rng, 1, minor, connect2, None) {
         ConnectOutcome::Connected(i) => {
-            pools.add_conn();
+            pools.add_conn_id(w.conns[i].id);
             Some(i)
         }
         ConnectOutcome::Refused(_) => None,
@@ -134,13 +134,21 @@ fn one_run(args: &Args, rng: &mut Rng, run: u64) -> (Vec<vcore::trace::Item>, se
             }
         } else if !live.is_empty() {
             let i = *rng.pick(&live);
+            if let Some(d) = w.last_dump() {
+                pools.view = broker_drivers::View::from_dump(&d);
+            }
             let msg = pools.gen(rng, i, args.profile);
             if w.send(i, msg) {
                 sent += 1;
             }
-            if rng.chance(1, 3) {
-                let k = 1 + rng.below(4);
-                w.steps(rng, k);
+            if rng.chance(3, 5) {
+                if rng.chance(1, 3) {
+                    let k = 1 + rng.below(4);
+                    w.steps(rng, k);
+                } else if w.run(rng, STEP_BOUND) == RunOutcome::StepBound {
+                    stuck = true;
+                    break;
+                }
                 for i in 0..w.conns.len() {
                     let got = w.drain(i);
                     pools.learn(i, &got);
@@ -163,7 +171,7 @@ fn one_run(args: &Args, rng: &mut Rng, run: u64) -> (Vec<vcore::trace::Item>, se
     if w.broker_running() && !broker_shutdown_requested && !stuck {
         if let ConnectOutcome::Connected(p) = w.connect(rng, 1, 20, true, None) {
             probed = true;
-            pools.add_conn();
+            pools.add_conn_id(w.conns[p].id);
             ended.push(false);
             let uuid = ObjectUuid::new_v4();
             w.send(p, Sync { serial: 7 }.into());
